@@ -128,6 +128,16 @@ def run(ctx):
                 if ctx.time_left() < 0:
                     break
                 name, args, thunk = ops.plan_op(rng, info, d, docs, ops.REPLACE_FAMILY)
+                if _ % 5 == 4 or (_ % 2 == 1 and info.name in ("table", "heading-body", "iso", "list", "title")):
+                    # aimed (private random stream): insert a slice whose first (last) child is an empty open node with siblings
+                    rng_e = random.Random(ctx.seed * 9176 + si * 131 + _)
+                    sl_e = gen.end_of_node_slice(rng_e, docs)
+                    if sl_e is not None:
+                        p_e = rng_e.choice(gen.aligned_positions(d))
+                        q_e = p_e if rng_e.random() < 0.7 else rng_e.choice([x for x in gen.aligned_positions(d) if x >= p_e])
+                        name, args = "replace", [p_e, q_e, sl_e]
+                        thunk = (lambda a_, b_, s_: lambda tr: tr.replace(a_, b_, s_))(p_e, q_e, sl_e)
+                        ctx.count("aimed_end_of_node_slices")
                 f, t, req = requested(name, args, schema)
                 # planning code in front of the Fitter (exact tie with lean/PM/RangeOps.lean): fits_trivially / replace_step's
                 # trivial path for the requested (from, to, slice), and the range delete_range hands to Transform.delete
